@@ -121,15 +121,15 @@ C11Clauses(ev) ==
       rec(p) == (Pydantic(o) \/ o.meta) => Proj(LoadedFields(p[2]), LAMBDA f : f.jk) = keysOf(p[1])
       names == IF ran THEN ClassNames(ev.mod.classes) ELSE <<>>
   IN IF ev.indomain THEN
-     << <<"C11.total", TRUE, ran>>,
-        <<"C11.injective", ran, ~ran \/ \A p \in pairs : inj(p)>>,
+     \* (C11 does not claim that the module loads - that is C03, over its own key styles; an unloadable module simply
+     \*  leaves the clauses below without a field table to judge)
+     << <<"C11.injective", ran, ~ran \/ \A p \in pairs : inj(p)>>,
         <<"C11.recoverable", ran /\ (Pydantic(o) \/ o.meta), ~ran \/ \A p \in pairs : rec(p)>>,
         <<"C11.class-distinct", ran, ~ran \/ Cardinality(ToSet(names)) = Len(names)>>,
         <<"C11.class-vs-import", ran, ~ran \/ ToSet(names) \cap ToSet(ev.mod.imports) = {}>>,
         <<"C11.class-count", ran, ~ran \/ Len(names) = Len(ms)>> >>
      ELSE
-     << <<"C11.ood.total", TRUE, ran>>,
-        <<"C11.ood.injective", ran, ~ran \/ \A p \in pairs : inj(p)>>,
+     << <<"C11.ood.injective", ran, ~ran \/ \A p \in pairs : inj(p)>>,
         <<"C11.ood.recoverable", ran /\ (Pydantic(o) \/ o.meta), ~ran \/ \A p \in pairs : rec(p)>> >>
 
 \* ------------------------------------------------------------------ C12
